@@ -26,6 +26,13 @@ HOSTILE = ['*/ int x; /*', '#include <evil>', 'ends with backslash \\', 'two\\\n
 
 def rand_comment_content(rng: random.Random):
     r = rng.random()
+    if rng.random() < 0.15:
+        # the text arrives as a text block of its own that carries a header (a tool re-using
+        # its "Release notes:" block), handed over directly or among other pieces
+        headed = {'tb': [rng.choice(HOSTILE) for _ in range(rng.randint(1, 3))],
+                  'header': rng.choice(['Release notes:', '#define OWNER "x"', 'int injected;',
+                                        ['using namespace std;', 'two']])}
+        return headed if rng.random() < 0.6 else [rng.choice(HOSTILE), headed]
     if r < 0.35:
         return rng.choice(HOSTILE)
     if r < 0.6:
@@ -100,6 +107,14 @@ def eval_case(case: dict) -> dict:
             else:
                 com.append(T.decode(enc, text_gen.TextBlock))
         cnt[f'filled_via_{how}'] = 1
+        if isinstance(enc, dict) and 'tb' in enc and enc.get('header'):
+            # whether a comment made directly from a headed block takes the header along is
+            # not stated (the library leaves it out); either way all of it is comment
+            cnt['content_is_a_headed_text_block'] = 1
+            if com.lines == T.ref_lines(enc['tb']):
+                lines = T.ref_lines(enc['tb'])
+        elif 'header' in repr(enc):
+            cnt['content_holds_a_headed_text_block'] = 1
         if com.lines != lines:
             viol('comment-lines-differ-from-reference', expected=lines[:10], got=com.lines[:10])
         before = list(com.lines)
@@ -158,7 +173,15 @@ def eval_case(case: dict) -> dict:
                      lines=[ln for ln in top if ln.strip() and not ln.startswith('//')][:5])
         if case.get('extend') is not None:
             ehow = case.get('extend_how', 'append')
-            more = lines + T.ref_lines(case['extend'])
+            ext = case['extend']
+            more = lines + T.ref_lines(ext)
+            headed_ext = isinstance(ext, dict) and 'tb' in ext and bool(ext.get('header'))
+            if headed_ext and ehow in ('iadd', 'trim', 'append'):
+                # handed over directly, a headed block may leave its header behind (see above)
+                more = lines + T.ref_lines(ext['tb'])
+                probe = cpp_gen.Comment(T.decode(ext, text_gen.TextBlock))
+                if probe.lines != T.ref_lines(ext['tb']):
+                    more = lines + T.ref_lines(ext)
             if ehow == 'iadd':
                 com += T.decode(case['extend'], text_gen.TextBlock)
             elif ehow == 'lines-list':
@@ -294,7 +317,8 @@ def main(tier: str) -> int:
     total = 5000 if tier == 'quick' else 200000
     per = 250 if tier == 'quick' else 2500
     n_pairs = 10 if tier == 'quick' else 200
-    run.require('comments_rendered', 'comment_lines_judged', 'filled_via_iadd', 'filled_via_append', 'with_unusual_separators',
+    run.require('comments_rendered', 'comment_lines_judged', 'content_is_a_headed_text_block',
+                'content_holds_a_headed_text_block', 'filled_via_iadd', 'filled_via_append', 'with_unusual_separators',
                 'extended_after_render', 'changed_after_render_via_lines-list',
                 'changed_after_render_via_lines-setter', 'changed_after_render_via_trim',
                 'poured_chunk-no-appendix', 'poured_in-list', 'poured_cond_chunk',
